@@ -114,6 +114,8 @@ func dedupDriver(a *Args) {
 	startAgent := func() bool {
 		if agent != nil {
 			agent.Kill()
+			// the killed agent's list call may still be parked at the fake proxy: let it go before anything is pushed
+			fp.WaitNoParked(5 * time.Second)
 		}
 		var err error
 		agent, err = hx.StartAgentCfg(hx.Bin("agent"), md, fp.URL(), bln.Addr().String(), "agent", cfg, nil, nil)
@@ -271,6 +273,7 @@ func dedupDriver(a *Args) {
 		if agent != nil { // force a fresh agent: the window must contain only this scenario's IDs
 			agent.Kill()
 			agent = nil
+			fp.WaitNoParked(5 * time.Second)
 		}
 		play(fmt.Sprintf("dedup-window-%d", total), fmt.Sprintf("dedup-window-%d", total), hist, 10000)
 		res.Case(fmt.Sprintf("window:%d", total), map[string]interface{}{"distinct_ids": total, "relisted": "first and last"})
@@ -288,6 +291,7 @@ func dedupDriver(a *Args) {
 		if agent != nil {
 			agent.Kill()
 			agent = nil
+			fp.WaitNoParked(5 * time.Second)
 		}
 		played := 0
 		for hi, h := range cases.Histories {
